@@ -140,7 +140,9 @@ function genOpExpr (rng, ctx, d, label, nested) {
   // an optional chain may yield undefined: only as a stand-alone operation, never as an operand
   // now and then an operation with many operands (temporaries counted in two digits)
   if (!nested && P.nextSite < 120 && rng.chance(1, 40)) {
-    const n = rng.pick([9, 10, 11, 12, 16, 17, 33])
+    let n = rng.pick([9, 10, 11, 12, 16, 17, 33])
+    // temporaries counted past 64 and past 128 (no draw: earlier choices stay as they were)
+    if (n === 33) n = [33, 66, 130][(P.nextSite + id) % 3]
     const args = []
     for (let i = 0; i < n; i++) args.push({ t: 'probe', site: P.nextSite++ })
     return rng.chance(1, 2) ? { t: 'call', id, label, m: 'concat', recv: { t: 'probe', site: P.nextSite++ }, args, recvShape: 'plain', form: 'method' } : { t: 'tpl', id, label, ops: args }
